@@ -16,6 +16,16 @@ CHECKS = {
         design="4/C10", technique=TECH_A + "; symbolic-template patch keeps rendered numbers symbolic"),
 }
 
+CHECKS["C04"] = dict(
+    text="The real greedy kernel _assign_pages is executed symbolically for a fixed row count n (quick n<=4, thorough "
+         "n<=6) with UNBOUNDED integer heights, nrow and reserved rows and symbolic forcing flags: z3 shows on every path "
+         "that a break falls exactly where the statement requires (forced, or the next row would not fit) and nowhere "
+         "else, that earlier rows are unaffected by appended rows, that group-start flags equal key changes, and that the "
+         "strategies pass the right forcing flags.",
+    note="Trusted: z3/CrossHair int+str models; MetaFrame/FakeFrame standing in for polars frames; constant width stub. "
+         "Outside: n beyond the bound, the polars slice that materialises pages, heights as a function of text.",
+    design="4/C04", technique=TECH_A)
+
 NOT_APPLICABLE = {
     "C18": "file-system crash-point property: effects of pathlib/tempfile/shutil and an external converter are opaque to "
            "(and blocked under) symbolic execution; a model of the file system would verify the model, not the effects",
